@@ -60,7 +60,7 @@ pub fn run_c01(ctx: &mut Ctx) {
     ctx.check::<Case>(
         "world",
         "programs of 4..40 world ops over 1..3 swarms (probe behaviour with 1..3 derived fields); non-trivial = >=1 establishment and >=1 of {abort, denial, close while another attempt to the same peer is pending}; distinct by case hash",
-        ctx.n(1500, 40_000),
+        ctx.n(40_000, 1_200_000),
         &|| life::case_strategy(3, 1..=2, 3, 40, Weights { disconnect: 2, ..Weights::default() }),
         &|c| eval(c, "C01:", &|r| r.flags.established > 0 && (r.flags.aborts > 0 || r.flags.denials > 0 || r.flags.close_with_pending_same_peer > 0)),
     );
@@ -71,7 +71,7 @@ pub fn run_c02(ctx: &mut Ctx) {
     ctx.check::<Case>(
         "world",
         "programs of 4..40 world ops over 1..3 swarms; non-trivial = >=2 simultaneous connections to one peer and >=1 failure path; distinct by case hash",
-        ctx.n(1500, 40_000),
+        ctx.n(40_000, 1_200_000),
         &|| life::case_strategy(3, 1..=1, 2, 40, Weights { dial: 10, resolve_ok: 10, ..Weights::default() }),
         &|c| eval(c, "C02:", &|r| r.flags.max_simul >= 2 && r.flags.failures > 0),
     );
@@ -82,7 +82,7 @@ pub fn run_c05(ctx: &mut Ctx) {
     ctx.check::<Case>(
         "world",
         "programs of 4..30 world ops over 1..2 swarms with dials with/without expected peer and generated authenticated ids; non-trivial = some resolution authenticated as an unexpected or the local peer id; distinct by case hash",
-        ctx.n(1500, 40_000),
+        ctx.n(40_000, 1_200_000),
         &|| life::case_strategy(2, 1..=1, 0, 30, Weights { close: 1, disconnect: 0, remote_close: 0, ..Weights::default() }),
         &|c| eval(c, "C05:", &|r| r.flags.wrong_peer > 0 || r.flags.local_peer > 0),
     );
@@ -93,7 +93,7 @@ pub fn run_c06(ctx: &mut Ctx) {
     ctx.check::<Case>(
         "world",
         "programs of 4..40 world ops over 1..3 swarms whose behaviour is a derived struct of 2..3 probes, each denying the k-th call of a decision point; non-trivial = denial by a non-first field, or denial of an established connection while another connection to the same peer is open; distinct by case hash",
-        ctx.n(1500, 40_000),
+        ctx.n(40_000, 1_200_000),
         &|| life::case_strategy(3, 2..=3, 5, 40, Weights::default()),
         &|c| eval(c, "C06:", &|r| r.flags.denial_non_first_field > 0 || r.flags.est_denial_with_other_open > 0),
     );
